@@ -417,3 +417,38 @@ def resolved_effect_sites(ctx, S, cg, wanted):
                     if done:
                         continue
                 yield f, n, e
+
+
+CACHE_DECORATORS = ('lru_cache', 'cache', 'cached_property', 'memoize', 'memoized', 'cached')
+EXTERNAL_READS = {'OPEN', 'STAT', 'EXISTS', 'LISTDIR', 'DB_QUERY', 'READ_PATH', 'FSTAT', 'OPEN_FD'}
+
+
+def memoised_external_readers(ctx, S):
+    """Functions whose results are memoised by a decorator although they (transitively) read files / the index: a later change of
+    the external state is not seen by their callers.  Returns [(FunctionInfo, decorator text)]."""
+    out = []
+    for f in ctx.prog.all_functions():
+        if isinstance(f.node, ast.Lambda):
+            continue
+        for d in f.node.decorator_list:
+            base = d.func if isinstance(d, ast.Call) else d
+            nm = norm(base).split('.')[-1]
+            if nm in CACHE_DECORATORS:
+                tr = S.trans(f, depth=6)
+                if any(e[0] in EXTERNAL_READS for e in tr):
+                    out.append((f, norm(d)))
+    return out
+
+
+def reachable_functions(ctx, S, f, depth=10, seen=None):
+    seen = seen if seen is not None else {}
+    if f.qualname in seen or depth < 0:
+        return seen
+    seen[f.qualname] = f
+    for n, cal, effs in S.calls(f):
+        if cal is None:
+            continue
+        tgt = cal.target if cal.kind == 'internal' else (ctx.prog.find_method(cal.target, '__init__') if cal.kind == 'class' else None)
+        if tgt is not None:
+            reachable_functions(ctx, S, tgt, depth - 1, seen)
+    return seen
